@@ -75,15 +75,13 @@ Theorem C02_history_independent_partial : forall cfg s ops d fill,
 Proof. exact history_independent_guarded. Qed.
 Print Assumptions C02_history_independent_partial.
 
-(* the table used for a call never contains a label fit did not learn (nearest-profile oracle: contract) *)
-Theorem C02_reindex_no_new_label : forall t cs, incl (labels_of (reindex t cs)) (labels_of t).
-Proof. exact labels_reindex. Qed.
-Print Assumptions C02_reindex_no_new_label.
-
-Theorem C02_nearest_no_new_label : forall fill t, (forall c, In (fill c) (labels_of t)) ->
-  incl (labels_of (fill_nearest fill t)) (labels_of t).
-Proof. exact labels_fill_nearest. Qed.
-Print Assumptions C02_nearest_no_new_label.
+(* the table a call works with never contains a cluster label fit did not learn, in all three branches (nothing
+   missing / nearest profile, given the oracle's contract: it returns a label of a known row / unstack-ffill-bfill-stack) *)
+Theorem C02_corrected_no_new_label : forall fill t d t',
+  (forall c, In (fill c) (labels_of (reindex t (ds_combos d)))) ->
+  corrected fill t d = Some t' -> incl (labels_of t') (labels_of t).
+Proof. exact corrected_no_new_label. Qed.
+Print Assumptions C02_corrected_no_new_label.
 
 (* daily / billing (and the gate part of hourly): predict is the identity on the model object, and after any history of
    predictions and store/load cycles the outcome is that of the fresh object *)
